@@ -3,7 +3,7 @@
 # run ./check for the given properties (default: the property itself) on a scratch copy, and file it under /verif/seeded/<Cxx>-<n>/
 prop=$1; n=$2; shift 2
 checks=${*:-$prop}
-wt=/tmp/wt/$prop; out=/tmp/wt/$prop-out
+wt=/tmp/wt/$prop; out=/tmp/wt/$prop-out$SUFFIX
 dst=/verif/seeded/$prop-$n
 [ -f $out/patch$n.diff ] || { echo "no patch"; exit 9; }
 git -C $wt checkout -q -- . ; git -C $wt clean -fdq
@@ -26,7 +26,7 @@ done
 python3 - "$prop" "$n" "$tests" "$demo_with" "$demo_without" "$results" "$checks" <<'PY'
 import json, sys, re
 prop, n, tests, dw, dwo, results, checks = sys.argv[1:8]
-notes = open(f'/tmp/wt/{prop}-out/notes.md').read()
+notes = open(f"/tmp/wt/{prop}-out{__import__('os').environ.get('SUFFIX', '')}/notes.md").read()
 caught = {}
 for block in results.split('\n['):
     m = re.match(r'\[?(C\d+)\]', '[' + block if not block.startswith('[') else block)
